@@ -49,6 +49,7 @@ type checkCtx struct {
 	out        io.Writer // where verdict lines go (stdout; a buffer for self-test runs)
 	outRoot    string    // where query / replay files go (default <verif>/out)
 	noReplay   bool
+	boundedNote string
 	harnessDone map[string]map[string]interface{}
 	selftest   map[string][]selftestResult
 	xcheck     map[string]int
@@ -682,6 +683,26 @@ func (cc *checkCtx) checkProperty(prop string, seed int, known []KnownFinding, b
 		}
 		cc.printf("VIOLATION property=%s replay=%s obligation=%s%s\n", prop, replay, rec.o.Name, suffix)
 	}
+	// thorough tier: the property-level bounded search on the real API (labelled bounded,
+	// never counted as proved). A violating case it finds is a failing input shown on the
+	// real code and is reported as such.
+	cc.boundedNote = ""
+	if cc.tier == "thorough" && !cc.noReplay {
+		if fb := cc.propertyFallback(prop); fb != nil && fb["attempted"] == true {
+			if fb["reproduced"] == true {
+				violations++
+				dir := filepath.Join(cc.outDirRoot(), "replay")
+				os.MkdirAll(dir, 0o755)
+				path := filepath.Join(dir, sanitize(prop+"__bounded_property_level_search")+".json")
+				b, _ := json.MarshalIndent(map[string]interface{}{"property": prop, "obligation": "bounded:property_level_search", "class": "bounded", "replay": fb, "status": "violated"}, "", " ")
+				os.WriteFile(path, append(b, '\n'), 0o644)
+				cc.printf("VIOLATION property=%s replay=%s obligation=bounded:property_level_search\n", prop, path)
+				cc.boundedNote = "bounded (NOT counted as proved): property-level search on the real API FOUND a violating case, see " + path
+			} else {
+				cc.boundedNote = fmt.Sprintf("bounded (NOT counted as proved): property-level search on the real API (%v): no violating case in that scope", fb["inputs"])
+			}
+		}
+	}
 	// obligations that were discharged at baseline but no longer exist (renamed target etc.)
 	present := map[string]bool{}
 	for _, rec := range recs {
@@ -1006,6 +1027,10 @@ func (cc *checkCtx) writeEvidence(prop string, seed int, recs []*obRecord, units
 	}
 	if cc.audit != nil {
 		ev["coverage"].(map[string]interface{})["bounded"] = []string{fmt.Sprintf("bounded (NOT counted as proved): executable audit of the assumed contracts of stdlib/grpc functions in /verif/audit (pseudo-random inputs, seed %d, about 20000 cases per group): ok=%v in %.1fs", seed, cc.audit.OK, cc.audit.Secs)}
+	}
+	if cc.boundedNote != "" {
+		cov := ev["coverage"].(map[string]interface{})
+		cov["bounded"] = append(cov["bounded"].([]string), cc.boundedNote)
 	}
 	if cc.xcheck != nil {
 		ev["coverage"].(map[string]interface{})["second_solver_recheck"] = cc.xcheck
